@@ -263,6 +263,9 @@ def run(ctx):
         if not ctx.quick:
             need += ["rec.hist_handover", "rec.hist_quitrace"]
         missing = [k for k in need if ctx.counters.get(k, 0) == 0]
+        if "rec.thr_checked" in missing and ctx.counters.get("rec.thr_void", 0):
+            missing.remove("rec.thr_checked")       # machine too slow to judge the size trigger before the first tick
+            ctx.notes["threshold_observation"] = "not judged: the 1000 inserts did not finish inside the pre-tick window"
         if missing:
             raise core.Infra("vacuous recording: counters %s are 0" % missing)
     ctx.assumptions += [
